@@ -2,7 +2,7 @@
 # Build everything from files on disk: Coq theories (full .vo build), extraction of each
 # cluster, OCaml drivers.  Usage: build.sh [all|coq|drivers|driver <Cluster>]
 set -u
-V=/verif
+V=${VERIF_ROOT:-/verif}
 cd $V
 mode=${1:-all}
 mkdir -p $V/build $V/evidence $V/replays
@@ -47,7 +47,7 @@ build_coq() {
   project
   cd $V/coq
   # -k: a file that does not build must not hide the others; what the claimed checks need is verified below
-  timeout 3000 make -k -j$JOBS > $V/build/coq.log 2>&1 || echo "WARNING: some Coq files did not build (see build/coq.log)" >&2
+  timeout 3000 make -k -j$JOBS COQC='timeout 900 coqc' > $V/build/coq.log 2>&1 || echo "WARNING: some Coq files did not build (see build/coq.log)" >&2
   cd $V
   for pid in $(python3 -c "import json;print(' '.join(c['property_id'] for c in json.load(open('$V/MANIFEST.json'))['checks']))"); do
     [ -f $V/coq/theories/Properties/$pid.vo ] || { grep -B2 -A12 -m1 "Error" $V/build/coq.log >&2; fail "Properties/$pid.vo was not built"; }
@@ -57,7 +57,7 @@ build_coq() {
 build_cone() {
   project
   cd $V/coq
-  timeout 3000 make -j$JOBS "$@" > $V/build/cone.$$.log 2>&1 || { tail -30 $V/build/cone.$$.log >&2; rm -f $V/build/cone.$$.log; fail "make $*"; }
+  timeout 3000 make -j$JOBS COQC='timeout 900 coqc' "$@" > $V/build/cone.$$.log 2>&1 || { tail -30 $V/build/cone.$$.log >&2; rm -f $V/build/cone.$$.log; fail "make $*"; }
   rm -f $V/build/cone.$$.log
   cd $V
 }
